@@ -24,6 +24,13 @@ def discover():
             RULES["C" + fname[1:3]] = "rules." + fname[:-3]
 
 
+def is_known(pid, fnd):
+    from sa.report import load_known
+    ent = load_known().get(fnd.key)
+    return ent is not None and ent.get("status") == "known" and \
+        ent.get("property") == pid
+
+
 def run_property(pid, tier, quiet=False, index=None):
     modname = RULES.get(pid)
     if modname is None:
@@ -31,9 +38,17 @@ def run_property(pid, tier, quiet=False, index=None):
     mod = importlib.import_module(modname)
     idx = index or RepoIndex()
     run = Run(pid, tier, getattr(mod, "LEVEL", "other"))
-    mod.check(idx, run)
-    if tier == "thorough" and hasattr(mod, "check_thorough"):
-        mod.check_thorough(idx, run)
+    try:
+        mod.check(idx, run)
+        if tier == "thorough" and hasattr(mod, "check_thorough"):
+            mod.check_thorough(idx, run)
+    except AnalysisError as err:
+        # a rule already decided a violation before a later rule lost its
+        # anchor: the violation stands, the lost anchor is reported with it
+        new = [f for f in run.findings if not is_known(pid, f)]
+        if not new:
+            raise
+        run.note("analysis", f"stopped early: {err}")
     return run
 
 
